@@ -39,6 +39,11 @@ func init() {
 		}
 		fs.OptNat("defDepth", 0, false, serverPath)
 		fs.OptNat("defPer", 0, false, serverPath)
+		fs.Tri("islandCacheKeyedByN", Unknown, "")
+		for _, n := range []string{"routeLastWins", "routeLookupByIsland", "routeValidatesRanges"} {
+			fs.Tri(n, Unknown, "sdk/go/hydraidego/client/client.go")
+		}
+		c20Routing(fs)
 
 		srv, err1 := Load(srvPath)
 		sdk, err2 := Load(sdkPath)
@@ -58,6 +63,25 @@ func init() {
 		}
 		if sconc != Unknown && vconc != Unknown {
 			fs.Tri("islandHashConcat", TriOf(sconc == Yes && vconc == Yes), srvPath+":"+itoa(vw))
+		}
+		// ---- per-object island cache: `if n.<field> != 0 { return n.<field> }` ignores the argument
+		cacheOf := func(f *File, method, field string) Tri {
+			fd := f.Func("name", method)
+			if fd == nil || fd.Body == nil {
+				return Unknown
+			}
+			for _, st := range fd.Body.List {
+				if is, ok := st.(*ast.IfStmt); ok && strings.Contains(f.Str(is.Cond), "n."+field+" != 0") {
+					if f.Str(is.Cond) == "n."+field+" != 0" && len(is.Body.List) == 1 && f.Str(is.Body.List[0]) == "return n."+field {
+						return No
+					}
+					return Unknown
+				}
+			}
+			return Unknown
+		}
+		if a, b := cacheOf(sdk, "GetIslandID", "IslandNumber"), cacheOf(srv, "GetFolderNumber", "FolderNumber"); a == No && b == No {
+			fs.Tri("islandCacheKeyedByN", No, srvPath)
 		}
 		// ---- hashed path
 		c20Path(fs, srv, srvPath)
@@ -104,6 +128,63 @@ func init() {
 			}
 		}
 	}})
+}
+
+// c20Routing: the SDK client's routing table.
+//
+//	routeLastWins        Connect: `for _, server := range c.servers` … `for island := server.FromIsland; island <= server.ToIsland; island++
+//	                     { c.serviceClients[island] = &ServiceClient{…} }` — a map filled range by range, later entries overwrite
+//	routeLookupByIsland  GetServiceClient / GetServiceClientAndHost: `folderNumber := swampName.GetIslandID(c.allIslands)`, then
+//	                     `c.serviceClients[folderNumber]` with the comma-ok form and `return nil` otherwise
+//	routeValidatesRanges no: FromIsland / ToIsland are mentioned nowhere in client.go outside that loop (and log lines)
+func c20Routing(fs *Facts) {
+	const path = "sdk/go/hydraidego/client/client.go"
+	f, err := Load(path)
+	if err != nil {
+		fs.Err("%v", err)
+		return
+	}
+	conn := f.Func("client", "Connect")
+	if conn == nil || conn.Body == nil {
+		return
+	}
+	var loops []*ast.ForStmt
+	ast.Inspect(conn.Body, func(n ast.Node) bool {
+		if l, ok := n.(*ast.ForStmt); ok && l.Init != nil && strings.HasPrefix(f.Str(l.Init), "island :=") {
+			loops = append(loops, l)
+		}
+		return true
+	})
+	if len(loops) == 1 {
+		l := loops[0]
+		ok := f.Str(l.Init) == "island := server.FromIsland" && f.Str(l.Cond) == "island <= server.ToIsland" && f.Str(l.Post) == "island++" &&
+			len(l.Body.List) == 1 && strings.HasPrefix(f.Str(l.Body.List[0]), "c.serviceClients[island] = &ServiceClient{") &&
+			f.Contains(conn, "for _, server := range c.servers")
+		if ok {
+			fs.Tri("routeLastWins", Yes, path+":"+itoa(f.Line(l)))
+		}
+	}
+	look := true
+	for _, m := range []string{"GetServiceClient", "GetServiceClientAndHost"} {
+		fd := f.Func("client", m)
+		if fd == nil || !f.Contains(fd, "folderNumber := swampName.GetIslandID(c.allIslands)") ||
+			!f.Contains(fd, "if serviceClient, ok := c.serviceClients[folderNumber]; ok {") || !f.Contains(fd, "return nil") {
+			look = false
+		}
+	}
+	fs.Tri("routeLookupByIsland", TriOf(look), path)
+	// any other use of the range bounds (a validation would have to read them)
+	uses := 0
+	ast.Inspect(f.AST, func(n ast.Node) bool {
+		if se, ok := n.(*ast.SelectorExpr); ok && (se.Sel.Name == "FromIsland" || se.Sel.Name == "ToIsland") {
+			uses++
+		}
+		return true
+	})
+	logUses := strings.Count(string(f.Src), `"fromIsland", server.FromIsland`) + strings.Count(string(f.Src), `"toIsland", server.ToIsland`)
+	if uses-logUses == 2 {
+		fs.Tri("routeValidatesRanges", No, path)
+	}
 }
 
 // c20Island inspects `n.<field> = <expr>` in the island method.
